@@ -375,5 +375,18 @@ theorem dep_event (T : Tables) (hcov : Coverage T = true) (w : World V) (op : Op
     rw [viewOf_congr T (sameStruct_applyDeliv T _ _), hb, viewOf_withCaches] at this
     exact this.symm
 
+/-- … so the entries under `nm` are gone after the call -/
+theorem dep_evicts (P : Params V) (T : Tables) (hcov : Coverage T = true) (w : World V) (op : Op) (hin : op.isInner = true)
+    (hd : Dom w) (hd' : Dom (step P T w op).1) (hr : RegsDefault T w) (o : Obj) (nm : String)
+    (hatt : attached w o = true) (hreg : (facsOf T w.regs o.cls).any (fun p => p.1 = nm) = true)
+    (hne : viewOf T (step P T w op).1 o nm ≠ viewOf T w o nm) (sk : SubKey) :
+    (cacheOf (step P T w op).1 o).get? nm sk = none := by
+  rw [step_factor P T w op hin] at hd' hne ⊢
+  have hdb : Dom (bumpOf w op) := Dom.congr (sameStruct_applyDeliv T _ _).symm hd'
+  rw [viewOf_congr T (sameStruct_applyDeliv T _ _)] at hne
+  have := dep_event T hcov w op hin hd hdb hr o nm hatt hreg hne
+  rw [get?_applyDeliv_eq, bumpOf_regs, this]
+  simp
+
 end Repr
 end DefconModel
